@@ -3,7 +3,7 @@ import inspect
 from typing import Callable, List, Tuple, Union, Sequence
 from xitorch._utils.attr import get_attr, set_attr, del_attr
 from xitorch._utils.unique import Uniquifier
-from xitorch._core.editable_module import EditableModule
+from xitorch._core.editable_module import EditableModule, _get_param_owner
 from contextlib import contextmanager
 from abc import abstractmethod
 
@@ -144,8 +144,15 @@ class TorchNNPureFunction(PureFunction):
 
     def _set_all_obj_params(self, objparams: List):
         for (name, param) in zip(self.names, objparams):
-            del_attr(self.obj, name)  # delete required in case the param is not a torch.nn.Parameter
-            set_attr(self.obj, name, param)
+            # the tensor takes the slot of the registered parameter (as in
+            # torch.func.functional_call), so it stays visible through the module's
+            # registry (parameters(), named_parameters()) while it is substituted
+            owner, key = _get_param_owner(self.obj, name)
+            if owner is not None:
+                owner._parameters[key] = param
+            else:
+                del_attr(self.obj, name)  # delete required in case the param is not a torch.nn.Parameter
+                set_attr(self.obj, name, param)
 
 class SingleSiblingPureFunction(PureFunction):
     def __init__(self, fcn: Callable, fcntocall: Callable):
